@@ -3,4 +3,4 @@
 From Coq Require Import Extraction ExtrOcamlBasic.
 From NJ Require Import Base Edits Registry Classify Select Reorder Machine Bind Monitors.
 Extraction Language OCaml.
-Extraction "model.ml" edits_obs mon_C18 model_run mkCase mkTyenv mkTy mkPdesc.
+Extraction "model.ml" edits_obs mon_C18 model_run mkCase mkTyenv mkTy mkPdesc mon_C03_plan mon_C03_plan_strict mon_C15_plan mkOprov.
